@@ -371,7 +371,11 @@ impl Prop for C12 {
         );
         ctx.feat("cases");
         let bg = case.bg.map(rgba);
-        let mut handler = SixelImageHandler::new(bg);
+        let mut concrete = SixelImageHandler::new(bg);
+        let mut boxed: Box<dyn ImageHandler> = Box::new(SixelImageHandler::new(bg));
+        let use_boxed = (case.w + case.h) % 2 == 1;
+        ctx.feat_if(use_boxed, "handler.boxed-trait-object");
+        let handler: &mut dyn ImageHandler = if use_boxed { &mut boxed } else { &mut concrete };
         // other windows of the same buffer drawn first on the same handler
         for (dr, dc) in case.warm.iter() {
             let (nr0, nc0) = (r0 as isize + *dr as isize, c0 as isize + *dc as isize);
@@ -388,6 +392,27 @@ impl Prop for C12 {
                 .draw(&mut sink, &other, Position::new(1, 1))
                 .map_err(|e| Fail::new("draw:error", format!("draw returned {e}")))?;
             ctx.feat("handler.other-crop-of-same-buffer-drawn-first");
+        }
+        // one case in three: the output fails under a first attempt to draw (tty gone for a moment);
+        // the draw that is judged comes after it and must not carry anything of it along
+        if (case.w + 2 * case.h) % 3 == 0 {
+            struct Failing(usize);
+            impl std::io::Write for Failing {
+                fn write(&mut self, buf: &[u8]) -> std::io::Result<usize> {
+                    if self.0 == 0 && !buf.is_empty() {
+                        return Err(std::io::Error::other("injected write failure"));
+                    }
+                    let n = buf.len().min(self.0);
+                    self.0 -= n;
+                    Ok(n)
+                }
+                fn flush(&mut self) -> std::io::Result<()> {
+                    Ok(())
+                }
+            }
+            let victim = if case.h % 2 == 0 { &base } else { &img };
+            let result = handler.draw(&mut Failing(case.w * 3), victim, Position::new(0, 0));
+            ctx.feat_if(result.is_err(), "handler.earlier-draw-failed-on-its-writer");
         }
         let mut out: Vec<u8> = Vec::new();
         handler
